@@ -652,7 +652,7 @@ def lp_node_support(rule, p):
 
 
 def rlq_cases(r, tier):
-    maxp = {"quick": 220, "thorough": 1500}[tier]
+    maxp = {"quick": 220, "thorough": 1000}[tier]
     lines = []
     for rule in ("localp", "semilocalp", "localp0", "localpb"):
         for order in (-1, 1, 2, 3, 4, 5, 6):
@@ -713,7 +713,7 @@ def run(res, tier, seed, only=None):
                             agree += int(line.split()[1])
     vlib.log("[C05] tie done agree=%d mism=%d t=%.1fs" % (agree, len(mism), __import__("time").time() - res.t0))
     # ---- direct evaluation
-    ncase = {"quick": 1600, "thorough": 16000}[tier] * (3 if proof_broken else 1)
+    ncase = {"quick": 1600, "thorough": 10000}[tier] * (3 if proof_broken else 1)
     cases = {}
     fams = gl.FAMILIES
     p1 = []
